@@ -105,24 +105,31 @@ def spec_has_clone(spec) -> bool:
     return rec(spec)
 
 
-def fix_sibling_ids(spec, auto=lambda label: ("auto", label)):
-    """Make a spec legal by construction: drop explicit ids that would give two
-    siblings the same effective data_id (in place; returns spec)."""
+def _auto_id(label):
+    # hash("") == 0, i.e. the empty string's default id equals the explicit id 0
+    return ("x", 0) if label == "" else ("auto", label)
+
+
+def fix_sibling_ids(spec, auto=_auto_id):
+    """Make a spec legal by construction: drop explicit ids until no two
+    siblings have the same effective data_id (in place; returns spec)."""
 
     def has_id(n):
         return len(n) > 2 and n[2] and n[2].get("id") is not None
 
     def rec(nodes):
-        seen = {auto(n[0]) for n in nodes if not has_id(n)}
+        while True:
+            effs = [("x", n[2]["id"]) if has_id(n) else auto(n[0]) for n in nodes]
+            victim = None
+            for e in effs:
+                if effs.count(e) > 1:
+                    victim = next((n for n, f in zip(nodes, effs) if f == e and has_id(n)), None)
+                    if victim is not None:
+                        break
+            if victim is None:
+                break
+            del victim[2]["id"]
         for n in nodes:
-            if has_id(n):
-                e = ("x", n[2]["id"])
-                if e in seen or auto(n[0]) == e:
-                    del n[2]["id"]
-                    # the label itself is unique among the siblings (construction of forest_specs),
-                    # unless an injected duplicate label exists: then keep the first only
-                else:
-                    seen.add(e)
             rec(n[1])
 
     rec(spec)
